@@ -237,7 +237,7 @@ pub fn run(ctx: &Ctx, replay: Option<&J>) -> i32 {
         return 0;
     }
     let ls = lists(!ctx.quick());
-    par_for(ls.len(), |i| check_list(ctx, &ls[i]));
+    par_for_ctx(ctx, ls.len(), |i| check_list(ctx, &ls[i]));
     ctx.set("lists", json!(ls.len()));
     ctx.set("functions", json!(unary_funcs().iter().map(|f| f.src).collect::<Vec<_>>()));
     ctx.sample(json!({"a": "[3, 1] via fact", "b": "map([3, 1], fact)"}));
